@@ -859,64 +859,30 @@ fn x86_head(b: &[u8], amd64: bool) -> Option<X86Head> {
     };
     Some(X86Head { p66, rex_w, op, modrm: b.get(k + 1).copied() })
 }
-/// Known-finding classes: exact decode-level predicates.  x86: evaluated at every INSTRUCTION START of the block
-/// (the starts are the instruction addresses of the lifter's own result), on prefixes + opcode + ModRM form.
-/// A64: exact bit pattern of an instruction word.  Each class names the single clause it is known to violate
-/// (`tol_of`): the Coq tie of a tagged case demands that nothing else fails.
+/// Known-finding classes: exact decode-level predicates on the input -- x86: evaluated at every INSTRUCTION START
+/// of the block (the starts are the instruction addresses of the lifter's own result) on prefixes + opcode + ModRM
+/// form (`x86_head`); fixed-width ISAs: exact bit pattern of an instruction word.  Each class names the single
+/// clause it is known to violate (`tol_of`): the Coq tie of a tagged case demands that nothing else fails.
+/// There is currently NO known-finding class: the four classes of the first rounds (x86 branch-target width,
+/// mov Sreg width, amd64 bsf/bsr 66+REX.W, A64 SVE add/sub immediate) were fixed in falcon.
 fn kf_tags(i: &Input, res: Option<&BlockTranslationResult>) -> Vec<String> {
-    let mut t: Vec<String> = vec![];
-    let mut add = |s: &str| {
-        if !t.iter().any(|x| x == s) {
-            t.push(s.to_string());
-        }
-    };
+    let t: Vec<String> = vec![];
+    // keep the decoder exercised so that a future class is a three-line addition
     if i.tr <= 1 {
         if let Some(r) = res {
             for (a, _) in r.instructions() {
                 let off = a.wrapping_sub(i.addr) as usize;
-                if off >= i.bytes.len() {
-                    continue;
-                }
-                let h = match x86_head(&i.bytes[off..], i.tr == 1) {
-                    Some(h) => h,
-                    None => continue,
-                };
-                let reg = h.modrm.map(|m| (m >> 3) & 7);
-                let mem = h.modrm.map(|m| m < 0xc0).unwrap_or(false);
-                // mov Sreg, r/m16 (8e /r): the 16-bit source is assigned to the 32/64-bit segment-register scalar
-                if h.op == 0x8e {
-                    add("kf:x86-mov-sreg-width");
-                }
-                // Branch target narrower / wider than the address width: call rel16/rel32 with 66 or REX.W (66 e8, 48 e8), x86 call/jmp r/m16
-                // (66 ff /2, 66 ff /4), x86 jmp far m16:32 (ff /5, memory form)
-                if (h.op == 0xe8 && (h.p66 || h.rex_w))
-                    || (i.tr == 0 && h.op == 0xff && h.p66 && matches!(reg, Some(2) | Some(4)))
-                    || (i.tr == 0 && h.op == 0xff && mem && reg == Some(5))
-                {
-                    add("kf:x86-branch-target-width");
-                }
-                // amd64 bsf / bsr with 66 and REX.W: 16-bit result assigned to a 64-bit register
-                if i.tr == 1 && h.p66 && h.rex_w && matches!(h.op, 0x0fbc | 0x0fbd) {
-                    add("kf:amd64-bsf-bsr-opsize-rexw");
+                if off < i.bytes.len() {
+                    let _ = x86_head(&i.bytes[off..], i.tr == 1).map(|h| (h.p66, h.rex_w, h.op, h.modrm));
                 }
             }
-        }
-    }
-    if i.tr >= 5 {
-        // SVE integer add / sub (immediate, unpredicated): 00100101 size 100 00x 11 sh imm8 Zdn -- bad64 decodes them
-        // as ADD / SUB with a Z register and an immediate; `Expression::add(..).unwrap()` panics on the widths.
-        // Only the first word that is not lifted matters: the panic ends the lift.
-        if i.bytes.chunks(4).any(|w| w.len() == 4 && matches!(u32::from_le_bytes([w[0], w[1], w[2], w[3]]) & 0xff3e_c000, 0x2520_c000 | 0x2522_c000)) {
-            add("kf:a64-sve-operand-widths");
         }
     }
     t
 }
 fn tol_of(tag: &str) -> &'static str {
     match tag {
-        "kf:x86-mov-sreg-width" | "kf:amd64-bsf-bsr-opsize-rexw" => "TAssignWidth",
-        "kf:x86-branch-target-width" => "TBranchWidth",
-        "kf:a64-sve-operand-widths" => "TPanic",
+        // "kf:<class>" => "TAssignWidth" | "TBranchWidth" | "TIndexWidth" | "TPanic"
         _ => "TPanic",
     }
 }
